@@ -55,6 +55,16 @@ def run_ops(obj, ops):
                 out.append(list(iter(obj)))
             elif o[0] == 'todict':
                 out.append([[k, v] for k, v in obj.to_dict().items()])
+            elif o[0] == 'observe':
+                # operations that only look at the object: whatever they return, what is observed next is unchanged
+                import copy
+                import io as _io
+                {'dumps': lambda: obj.dumps(), 'repr': lambda: repr(obj), 'str': lambda: str(obj), 'bool': lambda: bool(obj),
+                 'eq': lambda: (obj == obj, obj == {}, obj != 1), 'keys': lambda: (list(obj.keys()), list(obj.values()), list(obj.items())),
+                 'getdefault': lambda: obj.get('no-such-key', 1), 'copy': lambda: copy.deepcopy(obj),
+                 'dump': lambda: (obj.dump(_io.BytesIO()), obj.dump()),
+                 'todict': lambda: obj.to_dict().clear()}[o[1]]()
+                out.append(None)
         except KeyError:
             out.append(Exn('KeyError'))
     return out
@@ -131,6 +141,8 @@ def p_history(x):
                 want.append(list(ref))
             elif o[0] == 'todict':
                 want.append([[k, v] for k, v in ref.items()])
+            elif o[0] == 'observe':
+                want.append(None)
         except KeyError:
             want.append(Exn('KeyError'))
     if got != want:
@@ -270,6 +282,20 @@ def run(ctx):
     ctx.exhaustive.append('all %d operation sequences of length <= %d over %d atomic operations on keys A/a/b' % (len(small), ctx.n(4, 5), len(atoms)))
     fails = ctx.prop('prop:history', hist + small + [('file', '', [['len'], ['todict']]), ('text', '', [['len']])], p_history)
     ctx.stream('prop:history')['history_length_histogram'] = lens
+    # the same histories with looking-only operations (render, repr, compare, copy, list the keys) mixed in
+    OBS = ['dumps', 'repr', 'str', 'bool', 'eq', 'keys', 'getdefault', 'copy', 'dump', 'todict']
+    hist_obs = []
+    for route, init, ops in hist[:ctx.n(2500, 30000)]:
+        ops2 = []
+        for o in ops:
+            ops2.append(o)
+            if rng.random() < .3:
+                ops2.append(['observe', rng.choice(OBS)])
+                ops2.append(rng.choice([['todict'], ['len'], ['iter']]))
+        if route in ('text', 'file') and rng.random() < .3:
+            init = init + '\n\ntrailing words after an empty line'
+        hist_obs.append((route, init, ops2 + [['observe', rng.choice(OBS)], ['todict']]))
+    fails += ctx.prop('prop:history-with-observations', hist_obs, p_history)
     fails += ctx.prop('prop:independent-objects', [h for h in hist if h[0] in ('mapping', 'pairs')][:ctx.n(2500, 30000)] +
                       [('pairs', [['A', '1'], ['b', '2']], [list(o) for o in s_]) for n_ in range(1, 3) for s_ in itertools.product(atoms, repeat=n_)],
                       p_independent)
